@@ -394,7 +394,7 @@ fn gen_call(r: &mut Rng, s: &FnSpec, k: Key, whole: bool) -> POp {
 /// The base case of a seed; the batch runner then enumerates polls x {resume, drop}.
 pub fn gen_base(seed: u64, run: u64) -> PCase {
     let mut r = Rng::new(seed);
-    let pool: Vec<&FnSpec> = SPECS.iter().filter(|s| s.is_async && registered(s)).collect();
+    let pool: Vec<&FnSpec> = SPECS.iter().filter(|s| s.is_async && registered(s) && s.family != "nested").collect();
     // walk through all async functions, one per run
     let s = pool[(run % pool.len() as u64) as usize];
     let whole = s.policy == Policy::Tlru && s.ttl.is_some();
